@@ -174,7 +174,7 @@ func (m *mismatch) String() string {
 // compareAnswers: metamorphic oracle on two canonical answers.
 func compareAnswers(a, b *answer, meanTol bool) *mismatch {
 	ka, kb := seriesKeys(a), seriesKeys(b)
-	if strings.Join(ka, ";") != strings.Join(kb, ";") {
+	if len(ka) != len(kb) || strings.Join(ka, ";") != strings.Join(kb, ";") {
 		return &mismatch{Kind: "series-set", Got: strings.Join(kb, ";"), Want: strings.Join(ka, ";"),
 			MissingSer: countMissing(ka, kb), ExtraSer: countMissing(kb, ka)}
 	}
@@ -329,7 +329,7 @@ func checkReference(exp *expected, obs *answer) *mismatch {
 		ke = append(ke, s.Key)
 	}
 	ko := seriesKeys(o)
-	if strings.Join(ke, ";") != strings.Join(ko, ";") {
+	if len(ke) != len(ko) || strings.Join(ke, ";") != strings.Join(ko, ";") {
 		return &mismatch{Kind: "series-set", Got: strings.Join(ko, ";"), Want: strings.Join(ke, ";"),
 			MissingSer: countMissing(ke, ko), ExtraSer: countMissing(ko, ke)}
 	}
